@@ -105,9 +105,9 @@ func (g *gen) stackAddr() uint16 {
 	case 0:
 		return 0xfffe
 	case 1:
-		return 0xff80 + uint16(g.r.Intn(0x3f))*2 + 0x20
+		return 0xffa0 + uint16(g.r.Intn(0x2f))*2 // high RAM (FFA0-FFFC)
 	case 2:
-		return 0xe000 + 0x1f00 + uint16(g.r.Intn(0x40))*2
+		return 0xfd00 + uint16(g.r.Intn(0x40))*2 // the top of the echo area (FD00-FD7E)
 	}
 	return 0xdf00 + uint16(g.r.Intn(0x80))*2
 }
